@@ -13,8 +13,9 @@ import (
 // C01: namespace operations on the in-memory / key-value FS behave like the os package.
 
 type c01case struct {
-	Name string     `json:"name"`
-	Hist []fsx.Step `json:"hist"`
+	Name   string     `json:"name"`
+	Hist   []fsx.Step `json:"hist"`
+	NSetup int        `json:"nsetup,omitempty"` // the first NSetup steps build the situation
 }
 
 var c01once sync.Once
@@ -25,7 +26,7 @@ func c01build() {
 		add := func(name string, setup []fsx.Step, ops ...fsx.Step) {
 			h := append(append([]fsx.Step(nil), setup...), ops...)
 			// a probing tail: the situation after the operation is compared anyway; these chain a follow-up
-			c01matrix = append(c01matrix, c01case{Name: name, Hist: h})
+			c01matrix = append(c01matrix, c01case{Name: name, Hist: h, NSetup: len(setup)})
 		}
 		for _, sit := range fsx.TargetSituations {
 			setup, t := fsx.SituationSetup(sit, "a")
